@@ -138,7 +138,7 @@ def gen_lifecycle(rng, tier, mult=1):
 
 def gen(rng, tier, mult=1):
     yield from gen_lifecycle(rng, tier, mult)
-    n = (300 if tier == "quick" else 4000) * mult
+    n = (1000 if tier == "quick" else 15000) * mult
     for i in range(n):
         yield T.gen_transfer_case(rng, script_style=["abort", "silent", "clean", "faulty", "edge", "random"][i % 6],
                                   simple_cfg=True, fault=(i % 3 == 0), bs_choices=[8, 16, 512])
